@@ -30,6 +30,7 @@ import os
 import random
 import re
 import shutil
+import time
 
 from .. import facts, tlc
 
@@ -547,6 +548,22 @@ def execute(item):
         prob, paths, objs = round_trips(s, os.path.join(work, "s"), [True, False], FORMATS, kinds)
         res["problems"] += prob
         res["saves"] += 6
+        # independent of HedSchema.__eq__: the library entries of every reloaded object are the specification's state
+        for (merged, fmt), r in sorted(objs.items()):
+            if any(k.split(":")[1:3] == [fmt, "merged" if merged else "unmerged"] for k, _ in prob):
+                continue
+            gr = project(r)
+            for sec in gr:
+                if gr[sec] != want[sec]:
+                    ks = sorted(k for k in set(gr[sec]) | set(want[sec]) if gr[sec].get(k) != want[sec].get(k))
+                    a, b = gr[sec].get(ks[0]), want[sec].get(ks[0])
+                    fld = "missing" if a is None else "extra" if b is None else [f for f in b if a.get(f) != b[f]][0]
+                    kd = conc["kinds"].get("%s:%s" % ({"tags": "Tags", "ucs": "UnitClasses", "units": "Units", "others": "ValueClasses"}[sec], ks[0].split(":")[-1]), "")
+                    res["problems"].append(("state:%s:%s:%s:%s%s" % (fmt, "merged" if merged else "unmerged", sec, fld,
+                                                                     ":" + kd if fld == "desc" and kd else ""),
+                                            "schema reloaded from the %s %s file has %s %r = %s, the original has %s"
+                                            % ("merged" if merged else "unmerged", fmt, sec, ks[0], a, b)))
+                    break
         for merged in (True, False):
             p = paths.get((merged, "xml"))
             if p:
@@ -699,7 +716,7 @@ def _run_rest(ctx, pool, rb, rm):
                      label="generation: every schema reachable by <= 2 edits with the saved-XML rows the specification prescribes")
         cases = [j for j in rg.json_lines if "edits" in j]
         base0 = [j for j in rg.json_lines if "base" in j]
-        nsim = 120 if quick else 2500
+        nsim = 100 if quick else 2500
         rs = ctx.tlc("MC_SchemaStore", "MC_SchemaStore_sim.cfg", workers=1, mode="simulate", simulate="num=%d" % nsim, depth=6,
                      seed=ctx.seed + 1, timeout=3000, label="generation: random edit sequences of length <= 5 (simulation)")
         deep = [j for j in rs.json_lines if "edits" in j and len(j["edits"]) >= 3]
@@ -715,8 +732,8 @@ def _run_rest(ctx, pool, rb, rm):
         if k not in seen:
             seen.add(k)
             uniq_deep.append(j)
-    n_shallow = 150 if quick else 2200
-    n_deep = 70 if quick else 2000
+    n_shallow = 130 if quick else 1500
+    n_deep = 60 if quick else 1500
     chosen = _select(cases, n_shallow, ctx.seed) + uniq_deep[:n_deep]
     ctx.note("generated_schemas_available", {"exhaustive_le2_edits": len(cases), "simulated_ge3_edits": len(uniq_deep)})
     ctx.exhaustive = False
@@ -728,10 +745,12 @@ def _run_rest(ctx, pool, rb, rm):
                         hdr=dict(c["hdr"], library=c["hdr"]["library"][:1]))
         items.append({"id": i, "case": c, "conc": concretise(body, ctx.seed * 1000003 + i), "work": ctx.work})
 
+    t_tlc = time.time() - ctx.t0
     # ---------------- generated cases (same pool as the bundled schemas)
     rgc = pool.map_async(execute, items, chunksize=2)
     rb, rm, rgc = rb.get(), rm.get(), rgc.get()
     rb.sort(key=lambda o: o["version"])
+    ctx.note("phase_wall_s", {"tlc_design_and_generation": round(t_tlc, 1), "replay": round(time.time() - ctx.t0 - t_tlc, 1)})
 
     # ---- A1 verdicts
     trace = {"schemas": [], "cases": []}
